@@ -63,8 +63,8 @@ theorem pascalGo_chars_alnum : ∀ (s : Str) (cap : Bool), (∀ c ∈ s, isRustI
 theorem alnum_idchar {c : Char} (h : (isLetter c || isDigitC c) = true) : isIdChar c = true := by
   simp only [isIdChar, Bool.or_eq_true] at h ⊢
   rcases h with h | h
-  · exact .inl (.inl (.inl h))
-  · exact .inl (.inl (.inr h))
+  · exact .inl (.inl (.inl (.inl h)))
+  · exact .inl (.inl (.inl (.inr h)))
 
 /-- **type identifiers** (`<Pascal>Params`, `<Pascal>ParamsSchema`): every character of the PascalCase of a
     Rust identifier is an identifier character, so the name is one identifier token -/
@@ -101,9 +101,9 @@ theorem C01_function_name_chars (n : Str) (h : ∀ c ∈ n, isRustIdCh c = true)
     have := h c hc
     simp only [isRustIdCh, isIdChar, Bool.or_eq_true] at this ⊢
     rcases this with (h1 | h1) | h1
-    · exact .inl (.inl (.inl h1))
+    · exact .inl (.inl (.inl (.inl h1)))
+    · exact .inl (.inl (.inl (.inr h1)))
     · exact .inl (.inl (.inr h1))
-    · exact .inl (.inr h1)
   | cons x xs =>
     rw [hp] at hc
     have hall := pascalGo_chars_alnum n true h
